@@ -34,7 +34,7 @@ ASSUMPTIONS = ['violated at 0 means rho(0) < 0 (the trigger of explain()); a cor
 REAL = common.REAL_ALL + ['rtamt STL explainer']
 STUBS = common.STUBS_ALL
 PROBES = ['violated_and_explained', 'satisfied_nothing_reported', 'variable_occurs_twice', 'window_beyond_trace', 'unreported_samples_exist',
-          'everything_reported', 'log_longer_than_257_samples', 'with_subspecs']
+          'everything_reported', 'log_longer_than_257_samples', 'with_subspecs', 'same_time_axis_object_for_both_logs']
 ENVELOPE_RULES = []
 
 EXPLAIN_OPS = set(sg.ALL_OPS) - {'since', 'until', 'unless', 'since_b', 'until_b', 'unless_b', 'ln', 'log'}
@@ -147,7 +147,7 @@ def _gen(rng):
         modular = {'key': json.dumps(ast), 'defs': [['p1', p_]], 'subs': ['p1 = %s;' % sg.to_text(p_)], 'top': 'out = ' + sg.to_text(top) + ';'}
     warm = None
     if rng.random() < 0.2:
-        nw = rng.randint(1, 8)
+        nw = n if (rng.random() < 0.5 and n <= 12) else rng.randint(1, 8)
         warm = {'n': nw, 'data': world.gen_trace(rng, vars_, nw)}
     return {'vars': vars_, 'ast': ast, 'n': n, 'data': data, 'rnd': rnd, 'modular': modular, 'warm': warm}
 
@@ -220,6 +220,7 @@ def run(sc):
         r.discarded = True
         return r
     violated = [[nm, a] for nm, a in targets if refs[nm][0] < 0]
+    axis = list(range(n))
     try:
         spec = M.build(desc)
         if sc.get('warm'):
@@ -227,12 +228,15 @@ def run(sc):
             w = sc['warm']
             try:
                 eval_discrete(ast, w['data'], w['n'])
-                M.dt_evaluate(spec, list(range(w['n'])), w['data'])
+                if w['n'] == n:
+                    axis = M.SharedAxis(axis)          # both logs use one time axis: the caller passes the same list object
+                    r.probes['same_time_axis_object_for_both_logs'] += 1
+                M.dt_evaluate(spec, axis if w['n'] == n else list(range(w['n'])), w['data'])
                 M.api('explain', spec.explain)
                 r.faults['object_explained_another_log_before'] += 1
             except RefError:
                 pass
-        out = M.dt_evaluate(spec, list(range(n)), data)
+        out = M.dt_evaluate(spec, axis, data)
         r.api_calls += 3
         rho0 = out[0][1]
         M.api('explain', spec.explain)
